@@ -31,6 +31,22 @@ CLAIMED = {
   text="Proof (all inputs, all iterations): ComparePath is proved equal to the first-difference path order with the separator lowest (three postconditions + termination + index safety + no overflow), the order lemmas (irreflexive, asymmetric, transitive) are discharged over the spec, and the validator's soundness direction, stack discipline and representation invariant are proved per call. The completeness direction (accepts every good sequence) is a bounded stand-in and is labelled so in the evidence.",
   note="Assumes: govc's SSA->SMT translation; string extensionality axiom; uninterpreted filepath.Clean/Dir/Base/Join/IsAbs and bytewise string order; sort.Search contract (derived from its loop invariant); os.FileInfo methods pure.",
   design="DESIGN.md section 3 C12"),
+ "C13": dict(
+  text="Proof of the per-entry copy decisions for all stats and option values: device/fifo/socket nodes keep permission and exact type bits and the device number (bit-vector; the block->char defect was found and repaired), owner before mode before times with no-follow variants, chmod never on a symlink, requested symbolic mode = Set.Apply(source mode) and octal mode mapping incl. setuid/setgid/sticky (bit-vector), source atime/mtime otherwise, metadata before xattrs, symlinks copied via Readlink+Symlink, first name of an inode is the file and later names link to it, one notification per non-directory with the destination path, MkdirAll: existing directories untouched, created ones owner-then-time. Not decided: whole-tree fidelity (composition over ReadDir recursion and the kernel).",
+  note="Assumed: os/unix/sysx effect contracts, mode.Set.Apply uninterpreted, Chowner callback, io.CopyBuffer; copyFileContent termination not claimed; fixCreatedParentDirs/newCopier/ResolveWildcards trusted.",
+  design="DESIGN.md section 3 C13"),
+ "C14": dict(
+  text="Proof of the no-follow discipline per function: source and target are inspected with Lstat only (Stat only for directories already validated as parents and for the root-resolved destination), owner/time/xattr calls are the no-follow variants, chmod is skipped for symlinks, a non-directory target is removed (no-follow) or reported, pending parents are validated before an always-replace removal, destination names are root-clamped, every path handed to the copier derives from RootPath/rootPath. Two genuine escapes were found this way and repaired. The statement 'nothing outside the root' then rests on the assumed contract of continuity/fs.RootPath and kernel path resolution.",
+  note="Assumed: fs.RootPath returns a path inside root without symlink components (dependency), kernel path resolution for no-follow calls, no concurrent mutation.",
+  design="DESIGN.md section 3 C14"),
+ "C15": dict(
+  text="Proof of the overlay decisions: destination selection rows of prepareTargetDir (with the root-clamped source name), trailing-separator handling in Copy (ensure_dst), copyDirectoryOnly (absent->Mkdir, dir->kept, other->error and nothing touched), ensureEmptyFileTarget (absent->nothing, dir->error untouched, other->Remove), removeTargetIfNeeded truth table, order parents->replace->empty target->create. Not decided: idempotence of a whole copy and wildcard union (whole-tree statements).",
+  note="Assumed: os effect contracts; uninterpreted filepath.Join/Base/Dir/Split/Clean; ResolveWildcards trusted.",
+  design="DESIGN.md section 3 C15"),
+ "C16": dict(
+  text="Proof of the selection bookkeeping: include = matchesInclude && !matchesExclude (root always), nothing is created for an unselected non-directory, a directory is created eagerly only if selected itself, pending ancestors are created exactly when a selected descendant arrives, each from its own source directory's mode/owner/xattrs, the ancestor stack is restored on every return path. Equality with the reference filter (which depends on the regexp matcher of moby/patternmatcher) is not decidable by contracts here and is left to a bounded stand-in.",
+  note="Assumed: matcher results uninterpreted; os effects.",
+  design="DESIGN.md section 3 C16"),
  "C19": dict(
   text="Proof: buffer.alloc hands out the next n bytes of the concatenation view (region directly behind the last one or a fresh chunk at the end; earlier chunks keep position, backing array and length; index/slice safety; no overflow); in the receive loop every non-listing-name STAT is framed as LE32(size)+record of exactly that size, the listing's own name is skipped but still counted in the id sequence (found and repaired), ids are registered only for selected files.",
   note="Assumed: record bytes = marshalled stat (trusted generated MarshalToSizedBufferVT/SizeVT); selector callback; ancestor-stack replay order is checked only through the forward-after-validation obligation.",
